@@ -153,9 +153,14 @@ type c51slreq struct {
 	params [][2]string // query parameters in wire order (values unescaped)
 	tok    string      // X-Tok header ("" = absent)
 	remote c51reqSpec
+	rawq   string   // when set: the query string exactly as on the wire (params is ignored)
+	toks   []string // when set: X-Tok header fields in wire order (tok is ignored)
 }
 
 func (q c51slreq) target() string {
+	if q.rawq != "" {
+		return q.path + "?" + q.rawq
+	}
 	var ps []string
 	for _, p := range q.params {
 		ps = append(ps, url.QueryEscape(p[0])+"="+url.QueryEscape(p[1]))
@@ -236,7 +241,11 @@ func c51slRun(e *c51env, s *c51slsetup) {
 			cfgCovered = false
 		}
 		var hdrs [][2]string
-		if q.tok != "" {
+		if q.toks != nil {
+			for _, t := range q.toks {
+				hdrs = append(hdrs, [2]string{"X-Tok", t})
+			}
+		} else if q.tok != "" {
 			hdrs = append(hdrs, [2]string{"X-Tok", q.tok})
 		}
 		req, err := c51mkReq(c51reqSpec{product: product, host: q.host, target: q.target(), hdrs: hdrs, ip: peer.ip, port: peer.port})
@@ -424,6 +433,235 @@ func c51slRun(e *c51env, s *c51slsetup) {
 							}
 							exec(id, product, qq, ref)
 						}
+					}
+				}
+			}
+		}
+	}
+	c51slDupRun(e, s, exec)
+}
+
+// ---- repeated / conflicting carriers ----------------------------------------------------------
+//
+// Every key the rule reads (expires key, checksum key, the key of a query node, the X-Tok
+// header) is carried 0, 1 or 2 times with equal / different values in both orders, with a
+// percent-encoded spelling of the key and with the key in another case. The documents do not
+// say which of two values counts, so the reference accepts ANY consistent reading: the request
+// is invalid iff there is NO choice of one value per repeated carrier such that the offered
+// checksum equals the documented formula over the values chosen AND the expiry chosen (the same
+// value the checksum covers when the expiry is a node input) is not in the past. An expired
+// signed link therefore can never become acceptable by adding parameters.
+
+type c51carrier struct {
+	name string
+	vals func(past, future string) [][2]string // (key spelling on the wire, value) in wire order
+}
+
+func c51slDupRun(e *c51env, s *c51slsetup, exec func(id, product string, q c51slreq, ref c51verdict)) {
+	r := e.r
+	now := e.now
+	peer := c51reqSpec{ip: c51defaultIP, port: 4321}
+	past, future, future2 := strconv.FormatInt(now-86400, 10), strconv.FormatInt(now+86400, 10), "9999999999"
+
+	pct := func(k string) string { // percent-encode the first byte of the key
+		return fmt.Sprintf("%%%02X", k[0]) + k[1:]
+	}
+	expCarriers := func(k string) []c51carrier {
+		up := strings.ToUpper(k)
+		return []c51carrier{
+			{"P", func(p, f string) [][2]string { return [][2]string{{k, p}} }},
+			{"F", func(p, f string) [][2]string { return [][2]string{{k, f}} }},
+			{"P,F", func(p, f string) [][2]string { return [][2]string{{k, p}, {k, f}} }},
+			{"F,P", func(p, f string) [][2]string { return [][2]string{{k, f}, {k, p}} }},
+			{"P,F2", func(p, f string) [][2]string { return [][2]string{{k, p}, {k, future2}} }},
+			{"F,F2", func(p, f string) [][2]string { return [][2]string{{k, f}, {k, future2}} }},
+			{"P,pctF", func(p, f string) [][2]string { return [][2]string{{k, p}, {pct(k), f}} }},
+			{"pctF,P", func(p, f string) [][2]string { return [][2]string{{pct(k), f}, {k, p}} }},
+			{"P,caseF", func(p, f string) [][2]string { return [][2]string{{k, p}, {up, f}} }},
+			{"caseF,P", func(p, f string) [][2]string { return [][2]string{{up, f}, {k, p}} }},
+		}
+	}
+	aLists := [][]string{nil, {"1"}, {"1", "2"}, {"2", "1"}}
+	tokLists := [][]string{{}, {"hv"}, {"hv", "zz"}}
+	r.Set("securelink_repeated_bounds", "every rule x expires key carried as {P, F, P+F, F+P, P+F2, F+F2, P+%-encoded-key F, %-encoded-key F+P, P+other-case-key F, other-case-key F+P} (P past, F future) x query a {0,1,2 values, both orders} x X-Tok {0,1,2 fields} x checksum carried as {good-for-first-reading, good-for-last-reading} alone, before and after a wrong value, and both in both orders; reference = any consistent reading")
+
+	for _, product := range s.order {
+		if !e.mine() {
+			continue
+		}
+		c, covered := s.cover(product, "a.example.org")
+		if !covered {
+			continue
+		}
+		sumKey := c.sumKey
+		if sumKey == "" {
+			sumKey = "md5"
+		}
+		expName := c.expKey
+		if expName == "" {
+			expName = "t"
+		}
+		ecs := expCarriers(expName)
+		if c.expKey == "" {
+			ecs = ecs[:4]
+		}
+		usesA, usesTok := false, false
+		for _, n := range c.nodes {
+			if n.typ == "query" && n.param == "a" {
+				usesA = true
+			}
+			if n.typ == "header" {
+				usesTok = true
+			}
+		}
+		for _, ec := range ecs {
+			for ai, al := range aLists {
+				if !usesA && ai >= 2 {
+					continue
+				}
+				for ti, tl := range tokLists {
+					if !usesTok && ti >= 2 {
+						continue
+					}
+					// wire parameters without the checksum
+					var wire [][2]string
+					for _, a := range al {
+						wire = append(wire, [2]string{"a", a})
+					}
+					wire = append(wire, ec.vals(past, future)...)
+					// reference view of the carriers: values per (decoded, case-sensitive) key in wire order
+					vals := map[string][]string{}
+					for _, kv := range wire {
+						k, err := url.QueryUnescape(kv[0])
+						if err != nil {
+							e.t.Fatalf("c51: %v", err)
+						}
+						vals[k] = append(vals[k], kv[1])
+					}
+					vals["\x00X-Tok"] = tl
+					// all readings: one value (or absent) per carrier
+					keys := []string{"a", expName, "\x00X-Tok"}
+					var readings []map[string]string
+					var rec func(i int, cur map[string]string)
+					rec = func(i int, cur map[string]string) {
+						if i == len(keys) {
+							m := map[string]string{}
+							for k, v := range cur {
+								m[k] = v
+							}
+							readings = append(readings, m)
+							return
+						}
+						vs := vals[keys[i]]
+						if len(vs) == 0 {
+							rec(i+1, cur)
+							return
+						}
+						for _, v := range vs {
+							cur[keys[i]] = v
+							rec(i+1, cur)
+						}
+						delete(cur, keys[i])
+					}
+					rec(0, map[string]string{})
+					q0 := c51slreq{host: "a.example.org", path: "/s/link", remote: peer}
+					originOf := func(rd map[string]string, target string) string {
+						var sb strings.Builder
+						for _, n := range c.nodes {
+							switch n.typ {
+							case "label":
+								sb.WriteString(n.param)
+							case "query":
+								sb.WriteString(rd[n.param])
+							case "header":
+								sb.WriteString(rd["\x00X-Tok"])
+							case "host":
+								sb.WriteString(q0.host)
+							case "uri":
+								sb.WriteString(target)
+							case "remote_addr":
+								sb.WriteString(peer.remote())
+							}
+						}
+						return sb.String()
+					}
+					pick := func(first bool) map[string]string {
+						rd := map[string]string{}
+						for _, k := range keys {
+							if vs := vals[k]; len(vs) > 0 {
+								if first {
+									rd[k] = vs[0]
+								} else {
+									rd[k] = vs[len(vs)-1]
+								}
+							}
+						}
+						return rd
+					}
+					gFirst := c51slSum(originOf(pick(true), ""))
+					gLast := c51slSum(originOf(pick(false), ""))
+					bad := c51slSum("c51-not-the-checksum")
+					sums := []struct {
+						name string
+						vs   []string
+					}{
+						{"gFirst", []string{gFirst}}, {"gLast", []string{gLast}},
+						{"gFirst,bad", []string{gFirst, bad}}, {"bad,gFirst", []string{bad, gFirst}},
+						{"gLast,bad", []string{gLast, bad}}, {"bad,gLast", []string{bad, gLast}},
+						{"gFirst,gLast", []string{gFirst, gLast}}, {"gLast,gFirst", []string{gLast, gFirst}},
+					}
+					for _, sv := range sums {
+						id := vk.Key("securelink-repeated", product, "exp="+ec.name, "a="+strings.Join(al, "+"), "tok="+strings.Join(tl, "+"), "sum="+sv.name)
+						if !r.Case(id) {
+							continue
+						}
+						var ps []string
+						for _, kv := range wire {
+							ps = append(ps, kv[0]+"="+url.QueryEscape(kv[1]))
+						}
+						for _, v := range sv.vs {
+							ps = append(ps, sumKey+"="+url.QueryEscape(v))
+						}
+						q := q0
+						q.rawq = strings.Join(ps, "&")
+						q.toks = tl
+						target := q.target()
+						// reference: is there any consistent reading?
+						consistent, sumOKbutExpired := false, false
+						silentReason := "repeated-carrier"
+						for _, rd := range readings {
+							want := c51slSum(originOf(rd, target))
+							sumOK := false
+							for _, v := range sv.vs {
+								if v == want {
+									sumOK = true
+								}
+							}
+							if !sumOK {
+								continue
+							}
+							if c.expKey != "" {
+								ev, present := rd[c.expKey]
+								if c51expVerdict(ev, present, now).v == c51Invalid {
+									sumOKbutExpired = true
+									continue
+								}
+							}
+							consistent = true
+						}
+						var ref c51verdict
+						switch {
+						case consistent:
+							ref = c51verdict{c51Silent, silentReason}
+						case sumOKbutExpired:
+							ref = c51verdict{c51Invalid, "expires:in-the-past:repeated-carrier"}
+						default:
+							ref = c51verdict{c51Invalid, "checksum:wrong-value:repeated-carrier"}
+						}
+						if consistent && len(readings) == 1 && len(sv.vs) == 1 {
+							ref = c51verdict{c51Valid, ""} // nothing is repeated: the plain documented case
+						}
+						exec(id, product, q, ref)
 					}
 				}
 			}
